@@ -38,6 +38,10 @@ import (
 
 var maxMinimise = func() int { n, _ := strconv.Atoi(envOr("HAPSIM_MAXMIN", "3")); return n }()
 
+// outDir receives evidence and replay files (default: verifDir); experiments on
+// modified copies of the repository set HAPSIM_OUT_DIR to keep /verif untouched.
+var outDir = envOr("HAPSIM_OUT_DIR", envOr("HAPSIM_VERIF", "/verif"))
+
 var (
 	verifDir = envOr("HAPSIM_VERIF", "/verif")
 	repoDir  = envOr("HAPSIM_REPO", "/repo")
@@ -594,7 +598,7 @@ func cmdCheck(args []string) {
 		byClass[c] = append(byClass[c], r)
 	}
 	sort.Strings(classes)
-	os.MkdirAll(filepath.Join(verifDir, "replays"), 0755)
+	os.MkdirAll(filepath.Join(outDir, "replays"), 0755)
 	nMin := 0
 	for _, c := range classes {
 		rs := byClass[c]
@@ -612,7 +616,7 @@ func cmdCheck(args []string) {
 			nMin++
 		}
 		kf := matchFinding(findings, rf.Violation)
-		path := filepath.Join(verifDir, "replays", fmt.Sprintf("%s-%d-%s.json", v.Property, r.Seed, sanitize(v.Class)))
+		path := filepath.Join(outDir, "replays", fmt.Sprintf("%s-%d-%s.json", v.Property, r.Seed, sanitize(v.Class)))
 		writeJSON(path, rf)
 		rep := map[string]any{"class": v.Class, "seed": r.Seed, "profile": r.Profile, "count": len(rs), "replay": path, "witness": rf.Violation.Witness}
 		if kf != nil {
@@ -1003,8 +1007,8 @@ func writeEvidence(prop, tier string, seed, base uint64, all []*Result, reported
 			"explore_s":             exploreS,
 		},
 	}
-	os.MkdirAll(filepath.Join(verifDir, "evidence"), 0755)
-	writeJSON(filepath.Join(verifDir, "evidence", prop+".json"), ev)
+	os.MkdirAll(filepath.Join(outDir, "evidence"), 0755)
+	writeJSON(filepath.Join(outDir, "evidence", prop+".json"), ev)
 }
 
 // ---------------------------------------------------------------------------
